@@ -228,15 +228,17 @@ fn bad_indexes<V: VringT<dmn::Mem> + Clone + Send + Sync + 'static>(cfg: &Cfg) {
 /// SET_VRING_ADDR: translated addresses and next_used = used index currently in guest memory.
 fn addresses<V: VringT<dmn::Mem> + Clone + Send + Sync + 'static>(cfg: &Cfg, rng: &mut Rng) {
     let Some(mut w) = W::<V>::new(BCfg::default().features) else { return };
-    let regs = [Reg::new(0x10_0000, 8 * PAGE, 0x7f00_0000_0000, 0), Reg::new(0x4000_0000, 4 * PAGE, 0x1000, PAGE)];
-    if w.fe().set_mem_table(&[regs[0].info(), regs[1].info()]).is_err() {
+    // regions 0 and 1 are adjacent in the frontend's address space (the end of one is the first
+    // byte of the next) but far apart in guest-physical space
+    let regs = [Reg::new(0x10_0000, 8 * PAGE, 0x7f00_0000_0000, 0), Reg::new(0x4000_0000, 4 * PAGE, 0x7f00_0000_0000 + 8 * PAGE, 0), Reg::new(0x8000_0000, 4 * PAGE, 0x1000, PAGE)];
+    if w.fe().set_mem_table(&[regs[0].info(), regs[1].info(), regs[2].info()]).is_err() {
         report::inconclusive("set_mem_table");
         return;
     }
     for k in 0..cfg.pick(150, 4000) {
         let q = (k % NQ as u64) as usize;
         let pick = |rng: &mut Rng, align: u64, room: u64| -> (u64, u64, usize) {
-            let ri = rng.below(2) as usize;
+            let ri = rng.below(3) as usize;
             let r = &regs[ri];
             let off = match rng.below(4) {
                 0 => 0,
@@ -288,11 +290,25 @@ fn features<V: VringT<dmn::Mem> + Clone + Send + Sync + 'static>(cfg: &Cfg, rng:
             let sub = rng.chance(2, 3);
             let mask = if sub { offered & rng.next() } else { rng.next() | (1 << rng.below(64)) };
             let is_subset = mask & !offered == 0;
+            // now and then the device or the ownership is reset between two negotiations
+            let reset = match rng.below(6) {
+                0 => Some(("reset_device", w.fe().reset_device())),
+                1 => Some(("reset_owner", w.fe().reset_owner())),
+                _ => None,
+            };
+            if let Some((what, r)) = &reset {
+                report::count(&format!("features.{what}"), 1);
+                if r.is_err() {
+                    report::inconclusive(&format!("{what}: {r:?}"));
+                    return;
+                }
+            }
+            let reset_name = reset.as_ref().map(|r| r.0).unwrap_or("none");
             w.s.be.st.lock().unwrap().callbacks.clear();
             let r = w.fe().set_features(mask);
             report::eval(1);
             report::count("set_features", 1);
-            report::distinct_str(&format!("feat:{offered:x}:{mask:x}"));
+            report::distinct_str(&format!("feat:{offered:x}:{mask:x}:{reset_name}"));
             let cbs = w.s.be.st.lock().unwrap().callbacks.clone();
             let acked: Vec<u64> = cbs.iter().filter(|c| c.0 == "acked_features").map(|c| c.1[0]).collect();
             let evidx: Vec<u64> = cbs.iter().filter(|c| c.0 == "set_event_idx").map(|c| c.1[0]).collect();
@@ -313,7 +329,7 @@ fn features<V: VringT<dmn::Mem> + Clone + Send + Sync + 'static>(cfg: &Cfg, rng:
             }
             let s = w.snap();
             if s.iter().any(|q| q.event_idx != (want_idx == 1)) {
-                viol(cfg, "set_features:event-idx-not-on-every-queue", jo! {"requested" => J::x64(mask), "per_queue_event_idx" => s.iter().map(|q| q.event_idx).collect::<Vec<bool>>()}, "features");
+                viol(cfg, "set_features:event-idx-not-on-every-queue", jo! {"requested" => J::x64(mask), "preceded_by" => reset_name, "per_queue_event_idx" => s.iter().map(|q| q.event_idx).collect::<Vec<bool>>()}, "features");
                 return;
             }
             if k == 0 {
